@@ -270,7 +270,7 @@ class LockCheck(Check):
         if r['end'].startswith('crash') and self.crash_relevant():
             return 'implementation crashed (signal / sanitizer) in ' + r['id']
         if r['end'] == 'hang' and self.hang_relevant():
-            return ('the implementation did not return: it used 20 s of CPU time without reaching another atomic '
+            return ('the implementation did not return: it used 20 s of user-mode CPU time without reaching another atomic '
                     'operation (non-terminating local loop) in ' + r['id'])
         return None
 
